@@ -238,8 +238,8 @@ inline bool journal(const std::string& scenario, const std::string& history) {
   if (skip_cases().count(s)) return false;
   size_t n = std::min(s.size(), j.cap - 1);
   memcpy(j.buf, s.data(), n); j.buf[n] = 0;
-  static unsigned calls = 0;
-  if ((calls++ & 63) == 0) alarm(case_timeout_s());   // re-arm rarely: alarm() is a syscall
+  static double last_arm = 0;   // re-arm at most every 0.2 s (alarm() is a syscall; the clock read is not)
+  { const double t = now_s(); if (t - last_arm > 0.2) { alarm(case_timeout_s()); last_arm = t; } }
   return true;
 }
 inline void journal_clear() { journal_obj().buf[0] = 0; alarm(0); }
